@@ -36,20 +36,6 @@ def whereT : STn → STn → STn → Option STn
       (whereVals (fun v => v != 0) cv xv yv).bind fun _ => (whereInfer (fun v => v != 0) true c x y).toOption
     | _, _, _ => none
 
-def CT.isScalar : CT → Bool
-  | .scalar _ => true
-  | _ => false
-
-def cwhereT (c x y : CT) : Option CT :=
-  match c.values, x.values, y.values with
-  | some vc, some vx, some vy =>
-    if c.isScalar && x.isScalar && y.isScalar then
-      match cwhere vc vx vy with
-      | [v] => some (.scalar v)
-      | l => some (.vector l)
-    else some (.vector (cwhere vc vx vy))
-  | _, _, _ => none
-
 /-- What the rule infers; `none` = the rule makes no claim (error / not applicable). -/
 def Kind.infer : Kind → List STn → Option STn
   | .add, [a, b] => symBinary addOp a b
